@@ -17,6 +17,9 @@ type Engine struct {
 	rb     map[string][]retBound
 	rbBusy map[string]bool
 	taint  map[*types.Var]bool
+	rf     map[*types.Func][]bool
+	rfBusy map[*types.Func]bool
+	wt     map[*types.Func]map[int]bool
 }
 
 func newEngine(m *Model) *Engine {
@@ -29,7 +32,7 @@ func (e *Engine) flow(u *FuncUnit) *Flow {
 		return f
 	}
 	t0 := time.Now()
-	f := newFlow(e.m, e.ef, u, nil, e.retBounds)
+	f := newFlow(e.m, e.ef, u, nil, e.retBounds, e.resultFresh)
 	if os.Getenv("ARTCHECK_DEBUG") != "" {
 		fmt.Fprintf(os.Stderr, "flow %-40s blocks=%d iters=%d ok=%v %v\n", u.Name, len(f.g.Blocks), f.iters, f.ok, time.Since(t0))
 	}
@@ -102,7 +105,7 @@ func (e *Engine) retBounds(call *ast.CallExpr) []retBound {
 		}
 		return out
 	}
-	fl := newFlow(e.m, e.ef, u, entry, e.retBounds)
+	fl := newFlow(e.m, e.ef, u, entry, e.retBounds, e.resultFresh)
 	var res []retBound
 	for i, p := range params {
 		if p == nil {
@@ -339,4 +342,181 @@ func (e *Engine) propsForUnit(u *FuncUnit, base ...string) []string {
 	}
 	out := sortedKeys(set)
 	return out
+}
+
+// resultFresh: per result of a library callee, whether every return hands out memory the
+// callee allocated itself (derived from the callee's own body).
+func (e *Engine) resultFresh(call *ast.CallExpr) []bool {
+	f := e.m.staticCallee(call)
+	if f == nil {
+		return nil
+	}
+	if e.rf == nil {
+		e.rf, e.rfBusy = map[*types.Func][]bool{}, map[*types.Func]bool{}
+	}
+	if r, ok := e.rf[f]; ok {
+		return r
+	}
+	u := e.m.ByObj[f]
+	if u == nil || e.rfBusy[f] {
+		return nil
+	}
+	e.rfBusy[f] = true
+	defer delete(e.rfBusy, f)
+	sig, _ := f.Type().(*types.Signature)
+	if sig == nil || sig.Results().Len() == 0 {
+		e.rf[f] = nil
+		return nil
+	}
+	fl := e.flow(u)
+	res := make([]bool, sig.Results().Len())
+	for i := range res {
+		res[i] = true
+	}
+	any := false
+	for _, b := range fl.g.Blocks {
+		if !b.Live || fl.in[b.Index] == nil {
+			continue
+		}
+		for k, n := range b.Nodes {
+			rs, ok := n.(*ast.ReturnStmt)
+			if !ok {
+				continue
+			}
+			any = true
+			fs := fl.setBefore(b, k)
+			if len(rs.Results) != len(res) {
+				for i := range res {
+					res[i] = false
+				}
+				continue
+			}
+			for i, r := range rs.Results {
+				if !fl.freshExpr(r, fs, 0) {
+					res[i] = false
+				}
+			}
+		}
+	}
+	if !any {
+		for i := range res {
+			res[i] = false
+		}
+	}
+	e.rf[f] = res
+	return res
+}
+
+// externalWrites: external functions that write through an argument (index → true).
+var externalWrites = map[string]map[int]bool{
+	"encoding/binary.bigEndian.PutUint16": {0: true}, "encoding/binary.bigEndian.PutUint32": {0: true}, "encoding/binary.bigEndian.PutUint64": {0: true},
+	"encoding/binary.littleEndian.PutUint16": {0: true}, "encoding/binary.littleEndian.PutUint32": {0: true}, "encoding/binary.littleEndian.PutUint64": {0: true},
+	"golang.org/x/text/collate.Collator.Key": {0: true}, "golang.org/x/text/collate.Collator.KeyFromString": {0: true},
+	"golang.org/x/text/collate.Buffer.Reset": {-1: true},
+	"builtin.copy": {0: true}, "builtin.clear": {0: true}, "builtin.append": {0: true},
+}
+
+// writesThrough: parameters (index; -1 receiver) of a library function through which it may
+// write memory (directly or by passing them on).
+func (e *Engine) writesThrough(f *types.Func) map[int]bool {
+	if e.wt == nil {
+		e.wt = map[*types.Func]map[int]bool{}
+		info := e.m.Info
+		paramIdx := func(u *FuncUnit) map[*types.Var]int {
+			out := map[*types.Var]int{}
+			if u.Decl.Recv != nil && len(u.Decl.Recv.List) == 1 && len(u.Decl.Recv.List[0].Names) == 1 {
+				if v, _ := info.Defs[u.Decl.Recv.List[0].Names[0]].(*types.Var); v != nil {
+					out[v] = -1
+				}
+			}
+			i := 0
+			for _, fld := range u.Decl.Type.Params.List {
+				for _, nm := range fld.Names {
+					if v, _ := info.Defs[nm].(*types.Var); v != nil {
+						out[v] = i
+					}
+					i++
+				}
+			}
+			return out
+		}
+		for _, u := range e.m.Units {
+			if u.Lit == nil && u.Obj != nil {
+				e.wt[u.Obj] = map[int]bool{}
+			}
+		}
+		for changed := true; changed; {
+			changed = false
+			for _, u := range e.m.Units {
+				if u.Lit != nil || u.Obj == nil {
+					continue
+				}
+				ps := paramIdx(u)
+				mark := func(x ast.Expr) {
+					v, through := rootVar(info, x)
+					if v == nil {
+						return
+					}
+					i, isParam := ps[v]
+					if !isParam {
+						return
+					}
+					// writing the parameter variable itself is local; writing through it is not
+					if through && !e.wt[u.Obj][i] {
+						e.wt[u.Obj][i] = true
+						changed = true
+					}
+				}
+				ast.Inspect(u.Body, func(n ast.Node) bool {
+					switch x := n.(type) {
+					case *ast.AssignStmt:
+						for _, l := range x.Lhs {
+							if _, isId := ast.Unparen(l).(*ast.Ident); !isId {
+								mark(l)
+							}
+						}
+					case *ast.IncDecStmt:
+						if _, isId := ast.Unparen(x.X).(*ast.Ident); !isId {
+							mark(x.X)
+						}
+					case *ast.CallExpr:
+						name := e.m.calleeName(x)
+						if w, ok := externalWrites[name]; ok {
+							for i := range w {
+								if a := callArgFor(x, i); a != nil {
+									if _, isId := ast.Unparen(a).(*ast.Ident); isId {
+										// append(p, …)/copy(p, …) on the parameter itself
+										if v := identVar(info, a); v != nil {
+											if pi, isParam := ps[v]; isParam && !e.wt[u.Obj][pi] {
+												e.wt[u.Obj][pi] = true
+												changed = true
+											}
+										}
+									} else {
+										mark(a)
+									}
+								}
+							}
+						}
+						if g := e.m.staticCallee(x); g != nil {
+							if gw, ok := e.wt[g]; ok {
+								for gi := range gw {
+									if a := callArgFor(x, gi); a != nil {
+										if v, _ := rootVar(info, a); v != nil {
+											if pi, isParam := ps[v]; isParam && !e.wt[u.Obj][pi] {
+												e.wt[u.Obj][pi] = true
+												changed = true
+											}
+										}
+									}
+								}
+							}
+						}
+					}
+					return true
+				})
+			}
+		}
+	}
+	return e.wt[f]
 }
